@@ -99,7 +99,8 @@ JOBSETS['legacy'] = {
     'gen': {'families': {'quick': ['nest'], 'thorough': ['nest', 'default']}, 'bounds': {'quick': '1,1,1,2', 'thorough': '2,2,2,2'}},
     'kinds': ['codec'],
     'gen_env': _ENVS,
-    'jobs': {t: [{'id': 'legacy/codec', 'entry': FPKG + '.VerifLegacy', 'reach': ['end'], 'tags': ['legacy']}] +
+    'jobs': {t: [{'id': 'legacy/codec', 'entry': FPKG + '.VerifLegacy', 'reach': ['end'], 'tags': ['legacy']},
+                 {'id': 'legacy/codec/all-kinds', 'entry': FPKG + '.VerifLegacy', 'reach': ['end'], 'cfg': {'params': {'t': 1}}, 'tags': ['legacy']}] +
                 [{'id': 'legacy/envdepth/via%d/d%d' % (via, d), 'entry': FPKG + '.VerifDepthKnown', 'setup': FPKG + '.VerifSetupDepth', 'reach': ['end'],
                   'cfg': {'params': {'d': d, 'via': via}, 'max_depth': 200000, 'step_limit': 50000000, 'env': {'FRUGAL_MAX_INLINE_DEPTH': '64', 'FRUGAL_MAX_INLINE_IL_SIZE': '1000'}}, 'tags': ['legacy']}
                  for via in range(5) for d in (48, 100, 1024)] +
@@ -248,7 +249,7 @@ MANIFEST_TEXT.update({
                      '> 1023 levels depth-limit error, in between success or depth-limit error only, never a panic; the same nests in unknown-field position against the skipper limit of 64.',
             'ref': 'DESIGN.md s7 C15', 'note': _CODEC_NOTE + ' The inductive reading (budget strictly decreases on every recursive call) is checked for budgets <= 40 and nesting <= 4 (8 thorough), not proved for all; depths beyond 5000 are not executed.',
             'technique': 'SSA-level symbolic execution with symbolic depth budget + concrete deep-structure runs'},
-    'C17': {'level': 'opts.MaxInlineDepth/MaxInlineILSize hold arbitrary (symbolic) values and one legacy call with an arbitrary argument (setters, NoJIT, GetStats, Pretouch on valid/invalid/nil types with options, option constructors) is placed '
+    'C17': {'level': 'On two types (a default-bearing leaf; LgAll with list<enum>, map<enum,..>, map<..,enum>, set<double>, list of structs, binary, map of struct pointers): opts.MaxInlineDepth/MaxInlineILSize hold arbitrary (symbolic) values and one legacy call with an arbitrary argument (setters, NoJIT, GetStats, Pretouch on valid/invalid/nil types with options, option constructors) is placed '
                      'before / between / after EncodedSize, EncodeObject and DecodeObject of a symbolic value: sizes, bytes and decoded value equal the reference for all values; setters return their argument; Pretouch returns nil. '
                      'FRUGAL_MAX_INLINE_DEPTH as a symbolic string of length 0..3 (5 thorough): every valid decimal above the minimum parses to its value without panic. '
                      'The codec cores of the nesting family (thorough: + default family) and deep messages (48/100/1024 levels, 5 nesting mixtures) are executed with FRUGAL_MAX_INLINE_DEPTH / FRUGAL_MAX_INLINE_IL_SIZE set to valid '
